@@ -56,3 +56,12 @@ Theorem c02_entry_point_is_parse_response : gen_from_bytes_body = "crate::parser
 Proof. reflexivity. Qed.
 Check c02_entry_point_is_parse_response : gen_from_bytes_body = "crate::parser::parse_response(buf)"%string.
 Print Assumptions c02_entry_point_is_parse_response.
+
+(* the functions and closures that Natives.v models by hand are, token for token, the ones the models were written for *)
+From TI Require NativeSources.
+Theorem c02_hand_models_match_source :
+  gen_native_fns = NativeSources.modelled_fn_sources /\ gen_native_actions = NativeSources.modelled_action_sources.
+Proof. exact NativeSources.hand_models_match_source_lemma. Qed.
+Check c02_hand_models_match_source :
+  gen_native_fns = NativeSources.modelled_fn_sources /\ gen_native_actions = NativeSources.modelled_action_sources.
+Print Assumptions c02_hand_models_match_source.
